@@ -690,11 +690,25 @@ def tetSpec (s : Tetrahedron Float) : Spec V3 :=
     0 ≤ u && 0 ≤ v && 0 ≤ w && u + v + w ≤ 1
   let bd (p : V3 Rat) : Rat :=
     rsqrt (rmin (rmin (triDist2_3 a b c p) (triDist2_3 a b d p)) (rmin (triDist2_3 a c d p) (triDist2_3 b c d p)))
+  -- (fu5) the query point lies, within 1e-9 relative, ON a boundary between two Voronoi regions of the tetrahedron: a plane
+  -- through a vertex orthogonal to an incident edge (vertex | edge), or a plane through an edge containing the normal of an
+  -- incident face (edge | face).  There every region test of the cascade is decided by rounding noise.
+  let nearPlane (o m p : V3 Rat) : Bool :=
+    let v := p.sub o
+    let x := v.dot m
+    x * x ≤ (1 / 1000000000000000000) * v.normSq * m.normSq
+  let tie (p : V3 Rat) : Bool :=
+    let vs := [a, b, c, d]
+    let es := [(a, b, c, d), (a, c, b, d), (a, d, b, c), (b, c, a, d), (b, d, a, c), (c, d, a, b)]
+    vs.any (fun v => vs.any (fun w => (v.sub w).normSq != 0 && nearPlane v (w.sub v) p)) ||
+    es.any (fun (u, v, o1, o2) =>
+      let e := v.sub u
+      nearPlane u (e.cross (e.cross (o1.sub u))) p || nearPlane u (e.cross (e.cross (o2.sub u))) p)
   { valid := det != 0
     mem := mem
     dist := fun p => if mem p then 0 else bd p
     bdist := bd
-    cls := fun p => if mem p then "@interior" else "" }
+    cls := fun p => if mem p then "@interior" else if tie p then "@voronoi-tie" else "" }
 
 def tetVert (s : Tetrahedron Float) (i : Nat) : Option (V3 Rat) :=
   match i with | 0 => some (q3 s.a) | 1 => some (q3 s.b) | 2 => some (q3 s.c) | 3 => some (q3 s.d) | _ => none
@@ -729,7 +743,13 @@ def tetFeatOk (s : Tetrahedron Float) (f : Feat) (p : V3 Rat) (t : Rat) : Bool :
 
 def tetPanicVerdict (S : Spec V3) (p : V3 Rat) (solid : Bool) : String :=
   if !S.valid then "skip shape-outside-domain"
-  else if !solid && (S.mem p || S.bdist p ≤ ftol D3 p p) then "fail panic@interior-nonsolid" else "fail panic"
+  else if !solid && (S.mem p || S.bdist p ≤ ftol D3 p p) then "fail panic@interior-nonsolid" else s!"fail panic{S.cls p}"
+
+/-- append the class of the query point to the kind of a failing verdict (`fail distance ...` -> `fail distance@voronoi-tie ...`) -/
+def tetTag (S : Spec V3) (p : V3 Rat) (v : String) : String :=
+  match v.splitOn " " with
+  | "fail" :: k :: rest => if (k.splitOn "@").length > 1 then v else " ".intercalate ("fail" :: (k ++ S.cls p) :: rest)
+  | _ => v
 
 def tetHandler (op : String) : Option Handler :=
   match op with
@@ -765,7 +785,7 @@ def tetHandler (op : String) : Option Handler :=
           let S := tetSpec s; let P := q3 p
           match o with
           | "panic" :: _ => tetPanicVerdict S P so
-          | _ => withOut pfo o fun d => if !S.valid then "skip shape-outside-domain" else if d.isNaN then "fail nan-distance" else judgeDist D3 S P so (q d)
+          | _ => withOut pfo o fun d => if !S.valid then "skip shape-outside-domain" else if d.isNaN then "fail nan-distance" else tetTag S P (judgeDist D3 S P so (q d))
         | none => "skip bad-args" }
   | "cont" => some {
       model := fun a => run (do let s ← ptet; let p ← pv3
@@ -776,7 +796,7 @@ def tetHandler (op : String) : Option Handler :=
         | some (s, p) =>
           match o with
           | "panic" :: _ => tetPanicVerdict (tetSpec s) (q3 p) true
-          | _ => withOut pbool o fun c => judgeCont D3 (tetSpec s) (q3 p) c
+          | _ => withOut pbool o fun c => tetTag (tetSpec s) (q3 p) (judgeCont D3 (tetSpec s) (q3 p) c)
         | none => "skip bad-args" }
   | "feat" => some {
       model := fun a => run (do let s ← ptet; let p ← pv3
